@@ -55,5 +55,12 @@ var vpC01Targets = []vpC01Target{
 	{"&ARGS_NAMES:/^k/", func(p vpPair) bool { return vpArgs(p) && len(p.name) > 0 && vpLowerASCII(p.name)[0] == 'k' }, true, true},
 	{"REQUEST_HEADERS_NAMES:/^k/", func(p vpPair) bool { return p.where == 2 && len(p.name) > 0 && vpLowerASCII(p.name)[0] == 'k' }, true, false},
 	{"&REQUEST_HEADERS:/^k/", func(p vpPair) bool { return p.where == 2 && len(p.name) > 0 && vpLowerASCII(p.name)[0] == 'k' }, false, true},
+	// regex keys written with an upper-case letter, and with an escape class whose letter case
+	// matters (\S is "not white space", \s is "white space"): keys are matched without regard to
+	// the case of the *names*, the pattern itself keeps its meaning
+	{"ARGS:/^K/", func(p vpPair) bool { return vpArgs(p) && len(p.name) > 0 && vpLowerASCII(p.name)[0] == 'k' }, false, false},
+	{"REQUEST_HEADERS:/^K/", func(p vpPair) bool { return p.where == 2 && len(p.name) > 0 && vpLowerASCII(p.name)[0] == 'k' }, false, false},
+	{"REQUEST_HEADERS:/^\\S$/", func(p vpPair) bool { return p.where == 2 && len(p.name) == 1 }, false, false},
+	{"ARGS:/^\\S$/", func(p vpPair) bool { return vpArgs(p) && len(p.name) == 1 }, false, false},
 }
 
